@@ -535,8 +535,8 @@ impl<Aux> Vm<'_, Aux> {
                         .push(val)
                         .map_err(|_| ExecutionErrorPayload::Stackoverflow)
                         .map_err(|err| {
-                            // free the object on Stackoverflow
-                            self.runtime_data.free_object(obj.0);
+                            // the object stays registered in the object list: it is garbage now
+                            // and the collector (or clear) releases it
                             payload_to_error(err, *instr_ptr, &self.runtime_data.call_stack)
                         })?;
                 }
@@ -557,8 +557,8 @@ impl<Aux> Vm<'_, Aux> {
                         .push(val)
                         .map_err(|_| ExecutionErrorPayload::Stackoverflow)
                         .map_err(|err| {
-                            // free the object on Stackoverflow
-                            self.runtime_data.free_object(obj.0);
+                            // the object stays registered in the object list: it is garbage now
+                            // and the collector (or clear) releases it
                             payload_to_error(err, *instr_ptr, &self.runtime_data.call_stack)
                         })?;
                 }
@@ -579,8 +579,8 @@ impl<Aux> Vm<'_, Aux> {
                         .push(val)
                         .map_err(|_| ExecutionErrorPayload::Stackoverflow)
                         .map_err(|err| {
-                            // free the object on Stackoverflow
-                            self.runtime_data.free_object(obj.0);
+                            // the object stays registered in the object list: it is garbage now
+                            // and the collector (or clear) releases it
                             payload_to_error(err, *instr_ptr, &self.runtime_data.call_stack)
                         })?;
                 }
